@@ -213,8 +213,20 @@ func heavyArgs(r *gen.Rand) string {
 	pats := []string{"/a+/g", "/A+/gi", "/(a)|(b)/", "/\\d+/", "/^$/m", "/[a-c]+/g", "/a{1,2}/"}
 	var b strings.Builder
 	b.WriteString("var hv = [];\n")
-	for k := 0; k < 6; k++ {
-		switch r.Intn(6) {
+	dates := []string{"2000", "2001-02", "2002-02-03", "2003-02-03T04:05", "2004-02-03T04:05:06Z", "2005-02-03T04:05:06.789Z", "2006-02-03T04:05:06.789+01:30", "Thu, 03 Feb 2000 04:05:06 GMT", "02/03/2007", "2008/02/03 04:05:06", "Feb 3 2009", "3 Feb 2010 04:05", "not a date"}
+	for k := 0; k < 7; k++ {
+		switch r.Intn(7) {
+		case 6:
+			// texts in different formats, in a different order on every goroutine: a table of layouts
+			// (or anything else that learns from the last text) must not be shared
+			b.WriteString("hv.push(")
+			for j, i := range r.Perm(len(dates))[:5] {
+				if j > 0 {
+					b.WriteString(", ")
+				}
+				b.WriteString(fmt.Sprintf("Date.parse(%q), new Date(%q).getTime()", dates[i], dates[i]))
+			}
+			b.WriteString(");\n")
 		case 0:
 			b.WriteString(fmt.Sprintf("hv.push((1234567.891).toLocaleString(%s), [1234.5, 0.25].toLocaleString(), new Date(0).toLocaleString().length > 0);\n", tags[r.Intn(len(tags))]))
 		case 1:
